@@ -212,6 +212,8 @@ func checkC17(c *Ctx) {
 	c17RootsFixpoint(c)
 	c17StableExitReconcilesRoots(c)
 	c17SchemaStructAgreement(c)
+	c17NestedModuleDecidedFirst(c)
+	c17ResolutionIgnoresCacheState(c)
 	c17FileFilter(c)
 	c17ClosurePrivateState(c)
 }
